@@ -17,6 +17,7 @@
  * scheduler's pool is fed before ABT_pool_add_sched or by units it runs;
  * tasklets never block; a unit joins only its own children. */
 #define _GNU_SOURCE
+#include "abti.h" /* white-box read of the per-pool blocked counter (C06) */
 #include "actors.h"
 #include <sched.h>
 
@@ -1052,6 +1053,326 @@ static void run_join(vrt_rng *r, int trials)
     }
 }
 
+/* ======================================================================= */
+/* mode=block (C06): stream join / finalize wait for blocked units that are
+ * resumed later; the per-pool blocked counter is never negative and exact at
+ * quiescent points */
+enum { BS_EVENTUAL = 1, BS_COND, BS_SUSPEND, BS_MUTEX, BS_YIELD };
+#define BMAXU 48
+#define BMAXSTEP 4
+typedef struct {
+    int id;
+    int named;
+    ABT_thread th;        /* handle published by the unit itself */
+    int nsteps;
+    int step_kind[BMAXSTEP];
+    int step_obj[BMAXSTEP];
+    int waiting;          /* atomic: 0 none, else step index + 1 the unit is about to block in */
+    int woken;            /* atomic: highest step index + 1 already woken by the resumer */
+    int done;             /* atomic */
+    int started;          /* atomic */
+} bunit_t;
+typedef struct {
+    bunit_t u[BMAXU];
+    int n;
+    ABT_eventual ev[BMAXU * BMAXSTEP];
+    ABT_mutex mx[BMAXU * BMAXSTEP];
+    ABT_mutex cmx;
+    ABT_cond cnd;
+    int cond_flag[BMAXU * BMAXSTEP];
+    ABT_pool pool;        /* the pool under observation */
+    int resumer_go;       /* atomic */
+    int resumer_done;     /* atomic */
+    int all_done;         /* atomic */
+    uint64_t seed;
+    int sampler_stop;     /* atomic */
+    ABT_pool watch[4];
+    int nwatch;
+} bctx2_t;
+static bctx2_t g_b;
+static int c_bscen, c_bsteps[6], c_bjoin_with_blocked, c_bsamples, c_bfinalize, c_bexact, c_bstacked;
+
+static int32_t pool_num_blocked(ABT_pool pool)
+{
+    ABTI_pool *p = ABTI_pool_get_ptr(pool);
+    return ABTD_atomic_acquire_load_int32(&p->num_blocked);
+}
+
+static void bunit_fn(void *arg)
+{
+    bunit_t *u = (bunit_t *)arg;
+    VRT_ABT(ABT_self_get_thread(&u->th));
+    __atomic_store_n(&u->started, 1, __ATOMIC_SEQ_CST);
+    for (int s = 0; s < u->nsteps; s++) {
+        int k = u->step_kind[s], o = u->step_obj[s];
+        vrt_count(c_bsteps[k], 1);
+        __atomic_store_n(&u->waiting, s + 1, __ATOMIC_SEQ_CST);
+        if (k == BS_EVENTUAL) {
+            VRT_ABT(ABT_eventual_wait(g_b.ev[o], NULL));
+        } else if (k == BS_COND) {
+            VRT_ABT(ABT_mutex_lock(g_b.cmx));
+            while (!g_b.cond_flag[o])
+                VRT_ABT(ABT_cond_wait(g_b.cnd, g_b.cmx));
+            VRT_ABT(ABT_mutex_unlock(g_b.cmx));
+        } else if (k == BS_SUSPEND) {
+            VRT_ABT(ABT_self_suspend());
+        } else if (k == BS_MUTEX) {
+            VRT_ABT(ABT_mutex_lock(g_b.mx[o]));
+            VRT_ABT(ABT_mutex_unlock(g_b.mx[o]));
+        } else {
+            ABT_thread_yield();
+        }
+    }
+    __atomic_store_n(&u->waiting, 0, __ATOMIC_SEQ_CST);
+    __atomic_store_n(&u->done, 1, __ATOMIC_SEQ_CST);
+    vrt_progress();
+}
+
+/* wakes whatever each unit is currently waiting for, until all are done */
+static void resumer_body(void)
+{
+    bctx2_t *b = &g_b;
+    while (!__atomic_load_n(&b->resumer_go, __ATOMIC_SEQ_CST))
+        sched_yield();
+    vrt_rng r = { b->seed };
+    vrt_sleep_us(200 + (unsigned)vrt_range(&r, 3000));
+    for (;;) {
+        int remaining = 0;
+        for (int i = 0; i < b->n; i++) {
+            bunit_t *u = &b->u[i];
+            if (__atomic_load_n(&u->done, __ATOMIC_SEQ_CST))
+                continue;
+            remaining++;
+            int w = __atomic_load_n(&u->waiting, __ATOMIC_SEQ_CST);
+            if (w == 0 || w <= __atomic_load_n(&u->woken, __ATOMIC_SEQ_CST))
+                continue;
+            int s = w - 1, k = u->step_kind[s], o = u->step_obj[s];
+            if (k == BS_EVENTUAL) {
+                VRT_ABT(ABT_eventual_set(b->ev[o], NULL, 0));
+            } else if (k == BS_COND) {
+                VRT_ABT(ABT_mutex_lock(b->cmx));
+                b->cond_flag[o] = 1;
+                VRT_ABT(ABT_cond_broadcast(b->cnd));
+                VRT_ABT(ABT_mutex_unlock(b->cmx));
+            } else if (k == BS_SUSPEND) {
+                /* resume the moment BLOCKED becomes observable */
+                ABT_thread_state st = ABT_THREAD_STATE_READY;
+                ABT_thread_get_state(u->th, &st);
+                if (st != ABT_THREAD_STATE_BLOCKED)
+                    continue; /* not yet suspended: try again in the next sweep */
+                VRT_ABT(ABT_thread_resume(u->th));
+            } else if (k == BS_MUTEX) {
+                VRT_ABT(ABT_mutex_unlock(b->mx[o]));
+            }
+            __atomic_store_n(&u->woken, w, __ATOMIC_SEQ_CST);
+            if (vrt_range(&r, 4) == 0)
+                vrt_sleep_us((unsigned)vrt_range(&r, 300));
+        }
+        if (!remaining)
+            break;
+        sched_yield();
+    }
+    __atomic_store_n(&b->resumer_done, 1, __ATOMIC_SEQ_CST);
+}
+static void *resumer_pt(void *arg)
+{
+    (void)arg;
+    resumer_body();
+    return NULL;
+}
+static void *bsampler_pt(void *arg)
+{
+    (void)arg;
+    while (!__atomic_load_n(&g_b.sampler_stop, __ATOMIC_SEQ_CST)) {
+        for (int i = 0; i < g_b.nwatch; i++) {
+            int32_t nb = pool_num_blocked(g_b.watch[i]);
+            if (nb < 0) {
+                vrt_violation("block:num-blocked-negative", "pool %d reports %d blocked units", i, nb);
+                return NULL;
+            }
+            vrt_count(c_bsamples, 1);
+        }
+        for (volatile int i = 0; i < 300; i++)
+            ;
+    }
+    return NULL;
+}
+
+static void run_block_scenario(vrt_rng *r, int idx, int max_es)
+{
+    bctx2_t *b = &g_b;
+    memset(b, 0, sizeof(*b));
+    b->seed = vrt_next(r);
+    int nes, shared, pk, sp;
+    world_random_config(r, max_es, &nes, &shared, &pk, &sp);
+    if (nes < 2)
+        nes = 2;
+    /* variant: 0 = join a secondary stream with a private pool, 1 = ABT_finalize
+     * with blocked units in the primary's pool, 2 = stacked scheduler whose
+     * pool holds the blocked units */
+    int variant = (int)vrt_range(r, 4);
+    if (variant == 3)
+        variant = 0;
+    shared = 0; /* "pools that only that stream schedules" */
+    if (sp == ABT_SCHED_RANDWS)
+        sp = ABT_SCHED_BASIC; /* no stealing from the observed pool */
+    VRT_ABT(ABT_init(0, NULL));
+    world_t w;
+    world_create(&w, nes, shared, pk, sp);
+    int victim = 1 + (int)vrt_range(r, (uint64_t)nes - 1);
+    ABT_pool target_pool = variant == 1 ? w.pools[0] : w.pools[victim];
+    ABT_pool stacked_pool = ABT_POOL_NULL;
+    if (variant == 2) {
+        VRT_ABT(ABT_pool_create_basic(ABT_POOL_FIFO, ABT_POOL_ACCESS_MPMC, ABT_TRUE, &stacked_pool));
+        target_pool = stacked_pool;
+        vrt_count(c_bstacked, 1);
+    }
+    b->pool = target_pool;
+    /* only pools that stay allocated while the sampler runs: a stacked
+     * scheduler's (automatic) pool is freed when that scheduler finishes */
+    if (variant == 1)
+        b->watch[b->nwatch++] = w.pools[0];
+    else
+        b->watch[b->nwatch++] = w.pools[victim];
+    b->n = 1 + (int)vrt_range(r, BMAXU - 1);
+    VRT_ABT(ABT_mutex_create(&b->cmx));
+    VRT_ABT(ABT_cond_create(&b->cnd));
+    int nobj = 0;
+    for (int i = 0; i < b->n; i++) {
+        bunit_t *u = &b->u[i];
+        u->id = i;
+        u->named = variant == 1 ? 0 : (int)vrt_range(r, 2);
+        u->nsteps = 1 + (int)vrt_range(r, BMAXSTEP);
+        for (int s = 0; s < u->nsteps; s++) {
+            /* the first step always really blocks */
+            int k = 1 + (int)vrt_range(r, s == 0 ? 4 : 5);
+            u->step_kind[s] = k;
+            u->step_obj[s] = nobj;
+            if (k == BS_EVENTUAL)
+                VRT_ABT(ABT_eventual_create(0, &b->ev[nobj]));
+            if (k == BS_MUTEX) {
+                VRT_ABT(ABT_mutex_create(&b->mx[nobj]));
+                /* held by the resumer side from the start (locked here by the
+                 * primary ULT; ABT_mutex may be unlocked by another caller) */
+                VRT_ABT(ABT_mutex_lock(b->mx[nobj]));
+            }
+            nobj++;
+        }
+    }
+    /* sampler of the blocked counter */
+    pthread_t samp, rpt;
+    pthread_create(&samp, NULL, bsampler_pt, NULL);
+    pthread_create(&rpt, NULL, resumer_pt, NULL);
+    ABT_thread ths[BMAXU];
+    for (int i = 0; i < b->n; i++) {
+        bunit_t *u = &b->u[i];
+        VRT_ABT(ABT_thread_create(target_pool, bunit_fn, u, ABT_THREAD_ATTR_NULL, u->named ? &ths[i] : NULL));
+    }
+    if (variant == 2) {
+        ABT_sched st;
+        VRT_ABT(ABT_sched_create_basic(ABT_SCHED_BASIC, 1, &stacked_pool, ABT_SCHED_CONFIG_NULL, &st));
+        VRT_ABT(ABT_pool_add_sched(w.pools[victim], st));
+    }
+    /* wait until every unit sits in its first blocking call: quiescent point */
+    for (int i = 0; i < b->n && vrt_num_violations() == 0; i++) {
+        bunit_t *u = &b->u[i];
+        for (;;) {
+            ABT_thread_state st = ABT_THREAD_STATE_READY;
+            if (__atomic_load_n(&u->started, __ATOMIC_SEQ_CST))
+                ABT_thread_get_state(u->th, &st);
+            if (st == ABT_THREAD_STATE_BLOCKED)
+                break;
+            ABT_thread_yield();
+        }
+    }
+    /* mutex waiters are BLOCKED too (waitlist suspend).  Exactness of the
+     * counter: every unit is blocked exactly once */
+    {
+        int32_t nb = pool_num_blocked(target_pool);
+        size_t sz = 0, tot = 0;
+        VRT_ABT(ABT_pool_get_size(target_pool, &sz));
+        VRT_ABT(ABT_pool_get_total_size(target_pool, &tot));
+        vrt_count(c_bexact, 1);
+        if (nb != b->n || tot - sz != (size_t)b->n)
+            vrt_violation("block:num-blocked-inexact",
+                          "%d units of the pool are blocked, nothing else is in flight, but the blocked counter is %d "
+                          "(total_size %zu - size %zu)", b->n, nb, tot, sz);
+    }
+    char wd[128];
+    world_describe(&w, wd, sizeof(wd));
+    /* issue the join / finalize while they are blocked; the resumer fires later */
+    __atomic_store_n(&b->resumer_go, 1, __ATOMIC_SEQ_CST);
+    if (variant == 1) {
+        /* secondary streams first */
+        world_destroy(&w);
+        vrt_count(c_bfinalize, 1);
+        /* the primary's pool is freed inside ABT_finalize */
+        __atomic_store_n(&b->sampler_stop, 1, __ATOMIC_SEQ_CST);
+        pthread_join(samp, NULL);
+        VRT_ABT(ABT_finalize());
+        for (int i = 0; i < b->n; i++)
+            if (!__atomic_load_n(&b->u[i].done, __ATOMIC_SEQ_CST)) {
+                vrt_violation("block:finalize-returned-before-completion",
+                              "ABT_finalize returned but unit %d, blocked when it was called and resumed later, has not "
+                              "completed [%s]", i, wd);
+                break;
+            }
+        pthread_join(rpt, NULL);
+        /* the sync objects of this scenario die with the runtime */
+    } else {
+        vrt_count(c_bjoin_with_blocked, 1);
+        vrt_watch_pools(NULL, 0);
+        VRT_ABT(ABT_xstream_join(w.xs[victim]));
+        ABT_xstream_state st;
+        VRT_ABT(ABT_xstream_get_state(w.xs[victim], &st));
+        VRT_CHECK(st == ABT_XSTREAM_STATE_TERMINATED, "block:xstream-state", "state %d after join", (int)st);
+        for (int i = 0; i < b->n; i++)
+            if (!__atomic_load_n(&b->u[i].done, __ATOMIC_SEQ_CST)) {
+                vrt_violation("block:xstream-join-returned-before-completion",
+                              "ABT_xstream_join returned but unit %d (of %d) of its private pool, blocked when the join was "
+                              "issued and resumed later, has not completed (variant %d) [%s]", i, b->n, variant, wd);
+                break;
+            }
+        if (vrt_num_violations() == 0) {
+            int32_t nb = pool_num_blocked(w.pools[victim]);
+            VRT_CHECK(nb == 0, "block:num-blocked-nonzero-at-quiescence", "blocked counter %d after the join", nb);
+        }
+        __atomic_store_n(&b->sampler_stop, 1, __ATOMIC_SEQ_CST);
+        pthread_join(samp, NULL);
+        pthread_join(rpt, NULL);
+        if (vrt_num_violations())
+            return;
+        for (int i = 0; i < b->n; i++)
+            if (b->u[i].named)
+                VRT_ABT(ABT_thread_free(&ths[i]));
+        for (int i = 0; i < b->n; i++)
+            for (int s = 0; s < b->u[i].nsteps; s++) {
+                int o = b->u[i].step_obj[s];
+                if (b->u[i].step_kind[s] == BS_EVENTUAL)
+                    VRT_ABT(ABT_eventual_free(&b->ev[o]));
+                if (b->u[i].step_kind[s] == BS_MUTEX)
+                    VRT_ABT(ABT_mutex_free(&b->mx[o]));
+            }
+        VRT_ABT(ABT_cond_free(&b->cnd));
+        VRT_ABT(ABT_mutex_free(&b->cmx));
+        VRT_ABT(ABT_xstream_free(&w.xs[victim]));
+        for (int i = 1; i < w.nes; i++)
+            if (i != victim) {
+                VRT_ABT(ABT_xstream_join(w.xs[i]));
+                VRT_ABT(ABT_xstream_free(&w.xs[i]));
+            }
+        VRT_ABT(ABT_finalize());
+    }
+    if (idx < 3)
+        vrt_sample("block scenario %d: %s, %s with %d units (1-4 blocking steps each: eventual/cond/self_suspend/mutex/"
+                   "yield) all blocked when the call is issued, resumed 0.2-3 ms later by an external thread", idx, wd,
+                   variant == 1 ? "ABT_finalize" : variant == 2 ? "ABT_xstream_join (units in a stacked scheduler's pool)"
+                                                                : "ABT_xstream_join", b->n);
+    vrt_signature_add("%s,v%d,n%d", wd, variant, b->n > 8 ? 9 : b->n);
+    vrt_count(c_bscen, 1);
+    vrt_count(c_cases, 1);
+}
+
 int main(int argc, char **argv)
 {
     vrt_init(argc, argv, "h_units");
@@ -1107,6 +1428,21 @@ int main(int argc, char **argv)
             c_jtiming[i] = vrt_counter(nm);
         }
         run_join(&r, (int)vrt_arg_int("trials", 400));
+    } else if (!strcmp(mode, "block")) {
+        c_bscen = vrt_counter("block_scenarios");
+        c_bsteps[BS_EVENTUAL] = vrt_counter("blocked_on_eventual");
+        c_bsteps[BS_COND] = vrt_counter("blocked_on_cond");
+        c_bsteps[BS_SUSPEND] = vrt_counter("self_suspended");
+        c_bsteps[BS_MUTEX] = vrt_counter("blocked_on_mutex");
+        c_bsteps[BS_YIELD] = vrt_counter("yield_steps");
+        c_bjoin_with_blocked = vrt_counter("xstream_join_issued_with_blocked_units");
+        c_bfinalize = vrt_counter("finalize_issued_with_blocked_units");
+        c_bsamples = vrt_counter("blocked_counter_samples");
+        c_bexact = vrt_counter("blocked_counter_exact_checks");
+        c_bstacked = vrt_counter("stacked_scheduler_variants");
+        int n = (int)vrt_arg_int("scenarios", 40);
+        for (int i = 0; i < n && vrt_num_violations() == 0; i++)
+            run_block_scenario(&r, i, (int)vrt_arg_int("max-es", 4));
     } else {
         vrt_fatal("unknown mode %s", mode);
     }
